@@ -241,6 +241,8 @@ class Lib:
             if g.is_async:
                 raise Undecided('async comprehension')
             it = I.eval(g.iter, sc)
+            if isinstance(it, SNamespace) and it.members and all(isinstance(m, SV) and m.typ.kind == 'Enum' for m in it.members.values()):
+                it = list(it.members.values())      # iteration over an Enum class: its members in definition order
             if isinstance(it, (list, tuple, set, frozenset, dict)) and not bound:
                 scopes = []
                 bases = concrete_scopes if concrete_scopes is not None else [sc]
@@ -253,6 +255,8 @@ class Lib:
                             t = I.truth(I.eval(cond, s2))
                             if isinstance(t, bool):
                                 ok = ok and t
+                            elif not I.path.nofork:
+                                ok = ok and I.path.cond(t)       # code mode: the filter is decided element by element (forks)
                             else:
                                 raise Undecided('symbolic filter over a concrete iterable')
                         if ok:
@@ -598,11 +602,44 @@ class Lib:
             if k == 'Opt':
                 I.require(z3.Not(opt_is_none(recv)), 'TypeError', 'None subscript')
                 return self.getitem(I, opt_get(recv), idx)
+            if k == 'Tuple' and isinstance(idx, int):
+                n = len(recv.typ.args)
+                if not -n <= idx < n:
+                    I.raise_('IndexError')
+                j = idx % n
+                return SV(recv.typ.args[j], zsort(recv.typ).accessor(0, j)(recv.t))
         if isinstance(recv, SArr):
             return self.arr_getitem(I, recv, idx)
         if isinstance(recv, SObj):
             return I.call_method(recv, '__getitem__', [idx], {})
         raise Undecided(f'subscript of {recv!r}')
+
+    def empty_of(self, I, typ):
+        '''the value a defaultdict factory (list / set / dict) produces, as a term of the sort'''
+        if typ.kind == 'Seq':
+            pad = z3.Const('pad!' + ''.join(c if c.isalnum() else '_' for c in str(typ)), zsort(typ))
+            return seq_mk(typ, seq_arr(SV(typ, pad)), z3.IntVal(0))
+        if typ.kind == 'Set':
+            return set_empty(typ)
+        if typ.kind == 'Map' and typ.default:
+            # normal form of defaultdict-typed maps: every missing key carries the factory value
+            return map_mk(typ, z3.K(zsort(typ.args[0]), z3.BoolVal(False)), z3.K(zsort(typ.args[0]), self.empty_of(I, typ.args[1]).t))
+        if typ.kind == 'Map':
+            pad = z3.Const('pad!' + ''.join(c if c.isalnum() else '_' for c in str(typ)), zsort(typ))
+            return map_mk(typ, z3.K(zsort(typ.args[0]), z3.BoolVal(False)), map_val(SV(typ, pad)))
+        if typ.kind == 'Int':
+            return SV(INT, z3.IntVal(0))
+        raise Undecided(f'defaultdict factory for {typ}')
+
+    def dmap_get(self, I, m, key):
+        '''defaultdict.__getitem__: (map with the key present, value)'''
+        kt, vt = m.typ.args
+        k = coerce(key if isinstance(key, SV) else lift(key, kt), kt)
+        # normal form (see Interp.fresh / empty_of): the value array already holds the factory value at missing keys
+        val = SV(vt, map_val(m)[k.t])
+        new = map_mk(m.typ, z3.Store(map_dom(m), k.t, True), map_val(m))
+        self.use('collections.defaultdict: d[k] on a missing key inserts the factory value (a write)')
+        return new, val
 
     def dict_get(self, I, d, key, raise_missing=False, default=None):
         # concrete dict with possibly symbolic keys
@@ -645,7 +682,7 @@ class Lib:
             return
         if isinstance(recv, SV) and recv.typ.kind in ('Seq', 'Map'):
             new = self.store(I, recv, idx, v)
-            self.write_back(I, tgt.value, new, scope)
+            self.write_back(I, tgt.value, new, scope, _how=('rebind', idx))
             return
         if isinstance(recv, SArr):
             return self.arr_setitem(I, recv, idx, v, tgt, scope)
@@ -666,26 +703,71 @@ class Lib:
         val = coerce(v if isinstance(v, SV) else lift(v, recv.typ.args[1]), recv.typ.args[1])
         return map_mk(recv.typ, z3.Store(map_dom(recv), key.t, True), z3.Store(map_val(recv), key.t, val.t))
 
-    def write_back(self, I, node, new, scope):
-        '''value-semantics containers: store the updated value where it came from'''
+    def write_back(self, I, node, new, scope, _via=None, _how=None):
+        '''value-semantics containers: store the updated value where it came from (and through path aliases).
+        _how = ('rebind', key): base[key] now holds another object; ('mutate', key): the object at base[key] was changed in place'''
         if isinstance(node, ast.Name):
             s = scope
             while s is not None and node.id not in s.vars:
                 s = s.parent
             (s or scope).set(node.id, new)
+            al = scope.find_alias(node.id)
+            if al is not None:
+                # the name itself denotes an inner container that was just mutated: write through to base[key]
+                if al['stale'] or al.get('detached'):
+                    raise Undecided(f'mutation through {node.id}, whose link to {al["base_txt"]}[...] is no longer known')
+                base_val = I.eval(al['base'], scope)
+                if isinstance(base_val, SV):
+                    self.write_back(I, al['base'], self.store(I, base_val, al['key'], new), scope, _via=node.id, _how=('mutate', al['key']))
+                else:
+                    raise Undecided('path alias into a concrete container')
+            self._stale_aliases(I, scope, ast.unparse(node), _via, _how)
         elif isinstance(node, ast.Attribute):
             I.setattr(I.eval(node.value, scope), node.attr, new)
+            self._stale_aliases(I, scope, ast.unparse(node), _via, _how)
         elif isinstance(node, ast.Subscript):
             outer = I.eval(node.value, scope)
             key = I.eval(node.slice, scope)
             if isinstance(outer, SV):
-                self.write_back(I, node.value, self.store(I, outer, key, new), scope)
+                self.write_back(I, node.value, self.store(I, outer, key, new), scope, _via=_via, _how=_how or ('mutate', key))
             elif isinstance(outer, dict):
                 outer[key] = new
             else:
                 raise Undecided('nested write-back')
         else:
             raise Undecided('write-back target')
+
+    def _may_equal(self, I, a, b):
+        if not isinstance(a, SV) and not isinstance(b, SV):
+            try:
+                return a == b
+            except Exception:      # noqa
+                return True
+        try:
+            a2 = a if isinstance(a, SV) else lift(a, b.typ)
+            b2 = b if isinstance(b, SV) else lift(b, a.typ)
+            if a2.typ != b2.typ:
+                return True
+            return I.path.feasible(a2.t == b2.t)
+        except Exception:          # noqa
+            return True
+
+    def _stale_aliases(self, I, scope, written_txt, via, how):
+        '''a container was rewritten: decide what the aliases into it still denote'''
+        s = scope
+        while s is not None:
+            for name, al in s.aliases.items():
+                if name == via or al['base_txt'] != written_txt:
+                    continue
+                if how is None:
+                    al['stale'] = True
+                elif not self._may_equal(I, al['key'], how[1]):
+                    continue
+                elif how[0] == 'rebind':
+                    al['detached'] = True      # the alias keeps its object; base[key] may now hold another one
+                else:
+                    al['stale'] = True         # the object the alias denotes was changed through another path
+            s = s.parent
 
     def delitem(self, I, tgt, scope):
         recv = I.eval(tgt.value, scope)
@@ -700,8 +782,11 @@ class Lib:
         if isinstance(recv, SV) and recv.typ.kind == 'Map':
             key = coerce(idx if isinstance(idx, SV) else lift(idx), recv.typ.args[0])
             I.require(map_dom(recv)[key.t], 'KeyError', 'del map key')
-            new = map_mk(recv.typ, z3.Store(map_dom(recv), key.t, False), map_val(recv))
-            self.write_back(I, tgt.value, new, scope)
+            vals = map_val(recv)
+            if recv.typ.default:
+                vals = z3.Store(vals, key.t, self.empty_of(I, recv.typ.args[1]).t)      # keep the normal form
+            new = map_mk(recv.typ, z3.Store(map_dom(recv), key.t, False), vals)
+            self.write_back(I, tgt.value, new, scope, _how=('rebind', idx))
             return
         if isinstance(recv, SV) and recv.typ.kind == 'Seq':
             i = idx if isinstance(idx, SV) else lift(idx)
@@ -940,6 +1025,11 @@ class Lib:
             if isinstance(args[0], (list, tuple)):
                 recv.extend(args[0])
                 return None
+            if isinstance(args[0], GenExp):
+                items = self.comprehension(I, args[0].node, args[0].scope, 'list')
+                if isinstance(items, list):
+                    recv.extend(items)
+                    return None
         if name == 'copy':
             return list(recv)
         if name == 'pop' and not args:
@@ -1040,7 +1130,10 @@ class Lib:
                     res = SV(vt, map_val(recv)[key.t])
                 else:
                     res = I.merge(present, SV(vt, map_val(recv)[key.t]), args[1])
-                return map_mk(recv.typ, z3.Store(map_dom(recv), key.t, False), map_val(recv)), res
+                vals = map_val(recv)
+                if recv.typ.default:
+                    vals = z3.Store(vals, key.t, self.empty_of(I, vt).t)
+                return map_mk(recv.typ, z3.Store(map_dom(recv), key.t, False), vals), res
             if name == 'setdefault':
                 key = coerce(args[0] if isinstance(args[0], SV) else lift(args[0], kt), kt)
                 dflt = coerce(args[1] if isinstance(args[1], SV) else lift(args[1], vt), vt)
@@ -1271,6 +1364,24 @@ class Lib:
                 if not same and (oid, f) not in allowed:
                     raise Undecided(f'loop body writes field {f} of {o["cls"]}#{oid}, which the loop contract does not havoc')
 
+    def _ghost(self, I, spec, code, scope):
+        for line in code:
+            tree = ast.parse(line)
+            for n in ast.walk(tree):
+                tgt = None
+                if isinstance(n, ast.Assign):
+                    tgt = n.targets
+                elif isinstance(n, (ast.AugAssign, ast.AnnAssign)):
+                    tgt = [n.target]
+                elif isinstance(n, ast.Call) and isinstance(n.func, ast.Attribute) and n.func.attr in ('append', 'add', 'extend', 'update', 'pop', 'remove'):
+                    tgt = [n.func.value]
+                for t in tgt or []:
+                    while isinstance(t, ast.Subscript):
+                        t = t.value
+                    if not (isinstance(t, ast.Name) and t.id in spec.ghost_names):
+                        raise Undecided(f'ghost code writes a non-ghost variable: {line}')
+            I.exec_block(tree.body, scope)
+
     def _havoc(self, I, spec, scope):
         for name, typ in spec.vars.items():
             if '.' in name:
@@ -1302,6 +1413,7 @@ class Lib:
         else:
             n = self.iter_len(I, it)
         # init
+        self._ghost(I, spec, spec.ghost_init, scope)
         sc0 = Scope(scope)
         sc0.set(g, empty if not ordered else SV(INT, z3.IntVal(0)))
         self._check_invs(I, spec, sc0, label, 'inv-init')
@@ -1347,6 +1459,7 @@ class Lib:
             except _Break:
                 return
             self._heap_frame_check(I, spec, scope, before)
+            self._ghost(I, spec, spec.ghost_step, scope)
             scope.set(g, nxt)
             self._check_invs(I, spec, scope, label, 'inv-step')
             if 'step-end' in I.hooks:
